@@ -8,8 +8,11 @@ package checks
  */
 
 import (
+	"context"
 	"fmt"
 	"io"
+	"net/http"
+	"net/http/httptest"
 	"strings"
 	"time"
 
@@ -46,7 +49,13 @@ func attachShell(w *hworld.World, kind, id string) (in, out *hworld.Conn, err er
 		if in, err = w.Dial(""); nil != err {
 			return nil, nil, err
 		}
-		in.Send(hworld.Get("/i/"+id, w.Addr))
+		if m, ok := strings.CutPrefix(kind, "uni-"); ok {
+			/* The input stream asked for with another method than GET:
+			an input stream all the same. */
+			in.Send(m + " /i/" + id + " HTTP/1.1\r\nHost: " + w.Addr + "\r\nContent-Length: 0\r\n\r\n")
+		} else {
+			in.Send(hworld.Get("/i/"+id, w.Addr))
+		}
 		if out, err = w.Dial(""); nil != err {
 			return nil, nil, err
 		}
@@ -62,7 +71,7 @@ func attachShell(w *hworld.World, kind, id string) (in, out *hworld.Conn, err er
 // next one is entered (pushed onto the network per line), in order, once.
 func c02HTTP(r *ev.Result) {
 	n := 0
-	for _, kind := range []string{"uni", "io"} {
+	for _, kind := range []string{"uni", "io", "uni-POST", "uni-PUT"} {
 		w, err := hworld.Start(hworld.Config{})
 		if nil != err {
 			ev.Broken("%s", err)
@@ -354,4 +363,84 @@ func c04HTTP(r *ev.Result) {
 	r.AddDistinct(n)
 	r.Traces += n
 	r.Set("http_seam_shells", n)
+}
+
+// c04ManyShells: "indefinitely many times in series", taken at its word as
+// far as a second allows: 1 100 shells one after the other through the real
+// handlers (scripted requests, no network), each attached, ended by its
+// output's EOF, torn down, announced gone once, the callback help printed
+// again.  Anything that fills up per shell shows within that many.
+func c04ManyShells(r *ev.Result, shells int) {
+	w, err := hworld.Start(hworld.Config{})
+	if nil != err {
+		ev.Broken("%s", err)
+	}
+	defer w.Stop()
+	h := w.Srv.VerifHandler()
+	fail := func(k int, sig, what string) {
+		r.Violate(ev.Violation{Signature: "series/" + sig, Kind: "c04http", Replay: map[string]int{"shell_number": k},
+			What: fmt.Sprintf("shell number %d of a series through the real handlers: %s", k, what)})
+	}
+	n := 0
+	for k := 1; k <= shells; k++ {
+		id := fmt.Sprintf("s%d", k)
+		ictx, icancel := context.WithCancel(context.Background())
+		inDone, outDone := make(chan struct{}), make(chan struct{})
+		go func() {
+			defer close(inDone)
+			req := httptest.NewRequest("GET", "/i/"+id, nil).WithContext(ictx)
+			req.RemoteAddr = "192.0.2.9:1000"
+			h.ServeHTTP(&hsWriter{h: http.Header{}}, req)
+		}()
+		if _, ok := w.WaitNotice(func(cl opshell.CLine) bool {
+			return strings.Contains(cl.Line, "Input connected") || strings.Contains(cl.Line, "Rejected")
+		}); !ok {
+			icancel()
+			fail(k, "next-shell-refused", "its input stream was neither attached nor refused within 30 s (the earlier shells all ended)")
+			return
+		}
+		go func() {
+			defer close(outDone)
+			body := &hsBody{seq: []hsRes{{"data+eof", true, io.EOF}}, hold: make(chan struct{}), gate: make(chan struct{})}
+			close(body.gate)
+			req := httptest.NewRequest("POST", "/o/"+id, body)
+			req.RemoteAddr = "192.0.2.9:1001"
+			h.ServeHTTP(&hsWriter{h: http.Header{}}, req)
+		}()
+		gone, help, ready := 0, 0, 0
+		_, ok := w.WaitNotice(func(cl opshell.CLine) bool {
+			switch {
+			case strings.Contains(cl.Line, "Shell is gone"):
+				gone++
+			case strings.Contains(cl.Line, "Shell is ready"):
+				ready++
+			case strings.Contains(cl.Line, "/c | /bin/sh"):
+				help++
+			}
+			return gone > 0 && help > 0
+		})
+		if !ok {
+			icancel()
+			fail(k, "not-torn-down", fmt.Sprintf("its output ended; within 30 s there were %d ready, %d gone notices and the callback help was printed %d times", ready, gone, help))
+			return
+		}
+		for _, ch := range []chan struct{}{inDone, outDone} {
+			select {
+			case <-ch:
+			case <-time.After(hworld.Watchdog):
+				icancel()
+				fail(k, "handler-never-returns", "the shell was announced gone, a handler of it is still running 30 s later")
+				return
+			}
+		}
+		icancel()
+		if 1 != gone || 1 != ready {
+			fail(k, "notice-count", fmt.Sprintf("%d ready and %d gone notices for one shell", ready, gone))
+			return
+		}
+		n++
+	}
+	r.Add(n)
+	r.Traces += n
+	r.Set("shells_in_series_through_the_handlers", n)
 }
